@@ -147,7 +147,11 @@ pub fn main(args: &[String]) {
                 emit(&w, "i64_single", "i64", lvl, 1.0, vec![], vec![v], guarded(|| w.enc.encode_i64_single_new(v, Some(id))), None);
             }
             // the destination-argument forms reuse an old plaintext
-            let mut dest = w.enc.encode_f64_polynomial_new(&(0..n).map(|i| i as f64 + 1.0).collect::<Vec<_>>(), Some(id), 2f64.powi(20));
+            // (a scale of 2^20 does not fit the smallest levels of the long chains: then there is nothing to re-use)
+            let mut dest = match guarded(|| w.enc.encode_f64_polynomial_new(&(0..n).map(|i| i as f64 + 1.0).collect::<Vec<_>>(), Some(id), 2f64.powi(20))) {
+                Ok(d) => d,
+                Err(_) => continue,
+            };
             let short = vec![2.0, -1.0];
             let r = guarded(|| w.enc.encode_f64_polynomial(&short, Some(id), 2f64.powi(20), &mut dest));
             emit(&w, "poly", "poly", lvl, 2f64.powi(20), short.clone(), vec![], r.map(|_| dest.clone()), None);
